@@ -162,6 +162,13 @@ def run(ctx, factor):
         m = model.outcome(ctx.driver.call({"op": "run", "doc": model.y2j(BASE_RULE), "macroDocs": [{"err": 1}], "kind": "assembly",
                                            "text": text, "mode": kw["mode"], "addrOnly": False, "ret": kw["ret"]}))
         judge("macro-file-missing", res, {"fault": "macro-file-missing", "mode": kw}, m)
+        # a listing that cannot be read as text (saved as UTF-16 by a shell redirect, or not a text file at all)
+        for fname, raw in (("listing-saved-as-utf16", text.encode("utf-16")), ("listing-is-not-text", bytes([0x7f, 0x45, 0x4c, 0x46, 0xff, 0xfe, 0x80, 0x81, 0xc3, 0x28]) * 40)):
+            bad_in = sc.write(raw, ".s", binary=True)
+            res = impl.guarded(lambda: impl.MasterOfPuppets(impl.MatchConfig(
+                pattern_pathstr=good_rule, input_file=bad_in, input_file_type=impl.InputFileType.assembly,
+                return_mode=impl.RET[kw["ret"]], matching_mode=impl.MODE[kw["mode"]])).perform_matching())
+            judge(fname, res, {"fault": fname, "mode": kw}, None)
         # unknown section / objdump absent
         doc = copy.deepcopy(BASE_RULE)
         doc["config"]["sections"] = [".nosuch"]
